@@ -14,10 +14,13 @@ import (
 	"github.com/massnetorg/mass-core/consensus"
 	"github.com/massnetorg/mass-core/massutil"
 	"github.com/massnetorg/mass-core/wire"
+	"massnet.org/mass-wallet/api"
+	pb "massnet.org/mass-wallet/api/proto"
 	"massnet.org/mass-wallet/config"
 	"massnet.org/mass-wallet/masswallet"
 	"pgregory.net/rapid"
 	"verifharness/ev"
+	"verifharness/ref"
 	"verifharness/sim"
 )
 
@@ -262,6 +265,163 @@ func (c *c02ctx) verifyCreated(t *rapid.T, what, hexTx string, msgTx *wire.MsgTx
 	return &mtx
 }
 
+// ---- the same requests through the API handlers (package api) --------------------------------
+
+var errAPIBigFee = fmt.Errorf("api: transaction fee above the configured ceiling")
+
+// apiErr maps an API error code back to the wallet error it stands for, so that one oracle serves both routes.
+func apiErr(err error) error {
+	switch apiCode(err) {
+	case 0:
+		return nil
+	case api.ErrAPIInsufficientWalletBalance:
+		return masswallet.ErrInsufficientFunds
+	case api.ErrAPINotEnoughInputs:
+		return masswallet.ErrNotEnoughInputs
+	case api.ErrAPIOverfullInputs:
+		return masswallet.ErrOverfullUtxo
+	case api.ErrAPIBigTransactionFee:
+		return errAPIBigFee
+	}
+	return fmt.Errorf("api error %d: %v", apiCode(err), err)
+}
+
+func apiAmounts(m map[string]massutil.Amount) map[string]string {
+	out := map[string]string{}
+	for a, v := range m {
+		out[a] = fmtAmount(v.IntValue())
+	}
+	return out
+}
+
+// feeOf computes inputs - outputs of a returned transaction from the model's coin values (the API
+// does not report the fee).
+func (c *c02ctx) feeOf(t *rapid.T, what, hexTx string) massutil.Amount {
+	raw, err := hex.DecodeString(hexTx)
+	var mtx wire.MsgTx
+	if err != nil || mtx.SetBytes(raw, wire.Packet) != nil {
+		t.Fatalf("%s: the API returned a transaction that does not decode", what)
+	}
+	view := c.w.chainView(t)
+	var sum int64
+	for _, in := range mtx.TxIn {
+		op := in.PreviousOutPoint
+		if co, ok := view.coins[op]; ok {
+			sum += co.Value
+		} else if ptx := c.w.node.KnownTx(op.Hash); ptx != nil && int(op.Index) < len(ptx.TxOut) {
+			sum += ptx.TxOut[op.Index].Value
+		} else if ptx := c.w.pending[op.Hash]; ptx != nil && int(op.Index) < len(ptx.TxOut) {
+			sum += ptx.TxOut[op.Index].Value
+		} else {
+			t.Fatalf("%s: input %v of the returned transaction is unknown to the chain and the pending set", what, op)
+		}
+	}
+	for _, o := range mtx.TxOut {
+		sum -= o.Value
+	}
+	if sum < 0 {
+		t.Fatalf("%s: the returned transaction spends %d more than its inputs hold", what, -sum)
+	}
+	maxFee, _ := ref.ParseAmount(c.w.env.Cfg.Wallet.Settings.MaxTxFee)
+	if maxFee != nil && sum > maxFee.Int64() {
+		t.Fatalf("%s: the API handed out a transaction whose fee %d exceeds the configured ceiling %s", what, sum, c.w.env.Cfg.Wallet.Settings.MaxTxFee)
+	}
+	c.labels["via-api"] = true
+	return amountOf(sum)
+}
+
+func (c *c02ctx) createAuto(t *rapid.T, via bool, what string, amounts map[string]massutil.Amount, lockTime uint64, userFee int64, fromAddr, changeAddr string, payload []byte) (string, massutil.Amount, error) {
+	if !via {
+		return c.w.env.W.AutoCreateRawTransaction(amounts, lockTime, amountOf(userFee), fromAddr, changeAddr, payload)
+	}
+	r, err := c.w.apiSrv(t).AutoCreateTransaction(bg, &pb.AutoCreateTransactionRequest{Amounts: apiAmounts(amounts), LockTime: lockTime,
+		Fee: fmtAmount(userFee), FromAddress: fromAddr, ChangeAddress: changeAddr})
+	if err != nil {
+		return "", massutil.ZeroAmount(), apiErr(err)
+	}
+	return r.Hex, c.feeOf(t, what, r.Hex), nil
+}
+
+func (c *c02ctx) createStaking(t *rapid.T, via bool, what, fromAddr, stakingAddr string, period uint32, v int64, lockTime uint64, userFee int64) (string, massutil.Amount, error) {
+	if !via {
+		return c.w.env.W.CreateStakingTransaction(fromAddr, []*masswallet.StakingTxOut{{Address: stakingAddr, FrozenPeriod: period, Amount: amountOf(v)}}, lockTime, amountOf(userFee))
+	}
+	r, err := c.w.apiSrv(t).CreateStakingTransaction(bg, &pb.CreateStakingTransactionRequest{FromAddress: fromAddr, StakingAddress: stakingAddr,
+		Amount: fmtAmount(v), FrozenPeriod: period, Fee: fmtAmount(userFee)})
+	if err != nil {
+		return "", massutil.ZeroAmount(), apiErr(err)
+	}
+	return r.Hex, c.feeOf(t, what, r.Hex), nil
+}
+
+func (c *c02ctx) createBinding(t *rapid.T, via bool, what, fromAddr string, holder, target massutil.Address, v int64, userFee int64) (string, massutil.Amount, error) {
+	if !via {
+		return c.w.env.W.CreateBindingTransaction(fromAddr, amountOf(userFee), []*masswallet.BindingOutput{{Holder: holder, BindingTarget: target, Amount: amountOf(v)}})
+	}
+	r, err := c.w.apiSrv(t).CreateBindingTransaction(bg, &pb.CreateBindingTransactionRequest{FromAddress: fromAddr, Fee: fmtAmount(userFee),
+		Outputs: []*pb.CreateBindingTransactionRequest_Output{{HolderAddress: holder.EncodeAddress(), BindingAddress: target.EncodeAddress(), Amount: fmtAmount(v)}}})
+	if err != nil {
+		return "", massutil.ZeroAmount(), apiErr(err)
+	}
+	return r.Hex, c.feeOf(t, what, r.Hex), nil
+}
+
+func (c *c02ctx) createManual(t *rapid.T, via bool, what string, inputs []*masswallet.TxIn, amounts map[string]massutil.Amount, lockTime uint64, changeAddr string, sub map[string]struct{}) (string, massutil.Amount, error) {
+	if !via {
+		return c.w.env.W.CreateRawTransaction(inputs, amounts, lockTime, changeAddr, sub)
+	}
+	req := &pb.CreateRawTransactionRequest{Amounts: apiAmounts(amounts), LockTime: lockTime, ChangeAddress: changeAddr}
+	for _, in := range inputs {
+		req.Inputs = append(req.Inputs, &pb.TransactionInput{TxId: in.TxId, Vout: in.Vout})
+	}
+	var subs []string
+	for a := range sub {
+		subs = append(subs, a)
+	}
+	sort.Strings(subs)
+	req.Subtractfeefrom = subs
+	r, err := c.w.apiSrv(t).CreateRawTransaction(bg, req)
+	if err != nil {
+		return "", massutil.ZeroAmount(), apiErr(err)
+	}
+	return r.Hex, c.feeOf(t, what, r.Hex), nil
+}
+
+// probeAll asks for (almost) everything that is eligible: a request that returned no transaction
+// holds no coins, so this must succeed.
+func (c *c02ctx) probeAll(t *rapid.T, what string, err error, strangerAddr func() (string, [32]byte)) {
+	w := c.w
+	elig := c.eligible(t, nil)
+	k := blockchain.GetMaxStandardTxSize() / 154
+	if len(elig) == 0 || len(elig) > k {
+		return
+	}
+	var sum int64
+	for _, co := range elig {
+		sum += co.Value
+	}
+	fhi := relayMin(int64(blockchain.GetMaxStandardTxSize())) + massutil.MinRelayTxFee().IntValue()
+	if sum <= 2*fhi+100000 {
+		return
+	}
+	addr, _ := strangerAddr()
+	want := sum - fhi
+	hexProbe, _, perr := w.env.W.AutoCreateRawTransaction(map[string]massutil.Amount{addr: amountOf(want)}, 0, massutil.ZeroAmount(), "", "", nil)
+	if perr != nil {
+		t.Fatalf("after %s failed (%v), an automatic create for %d of the %d eligible (unspent, mature, unreserved) funds failed: %v - the failed request still holds its inputs\n  %s", what, err, want, sum, perr, w.journalTail(12))
+	}
+	raw, _ := hex.DecodeString(hexProbe)
+	var ptx wire.MsgTx
+	if ptx.SetBytes(raw, wire.Packet) == nil {
+		for _, in := range ptx.TxIn {
+			c.reserved[in.PreviousOutPoint] = true
+		}
+		c.drafts++
+	}
+	c.labels["probe-after-failed-create"] = true
+	c.nontriv = true
+}
+
 func (c *c02ctx) addrStd(h [32]byte) string {
 	a, _ := massutil.NewAddressWitnessScriptHash(h[:], config.ChainParams)
 	return a.EncodeAddress()
@@ -374,6 +534,31 @@ func propC02(t *rapid.T) {
 			changeAddr, _ = strangerAddr()
 		}
 		payload := rapid.SliceOfN(rapid.Byte(), 0, 30).Draw(t, "payload")
+		// a third of the requests travel through the API handlers (decimal strings, fee ceiling)
+		via := kind != "estimate" && rapid.IntRange(0, 2).Draw(t, "viaAPI") == 0
+		if via {
+			payload = nil // the API's automatic create takes no payload
+			if kind != "manual" && rapid.IntRange(0, 5).Draw(t, "aboveCeiling") == 0 {
+				userFee = 100000000 + int64(rapid.IntRange(1, 50000000).Draw(t, "ceilingExcess")) // above the default ceiling of 1 MASS
+			}
+			if kind == "staking" {
+				lockTime = 0
+			}
+		}
+		maxFeeV, _ := ref.ParseAmount(w.env.Cfg.Wallet.Settings.MaxTxFee)
+		bigFee := func(what string, err error) bool {
+			if err != errAPIBigFee {
+				return false
+			}
+			if userFee <= maxFeeV.Int64() {
+				t.Fatalf("%s: refused for exceeding the fee ceiling %s although the user's fee is %d and the minimum fee of a standard-size transaction is far below it", what, w.env.Cfg.Wallet.Settings.MaxTxFee, userFee)
+			}
+			c.labels["api-fee-ceiling"] = true
+			c.nontriv = true
+			// nothing was handed out, so nothing may stay reserved
+			c.probeAll(t, what, err, strangerAddr)
+			return true
+		}
 		elig := c.eligible(t, from)
 		var eligSum int64
 		for _, e := range elig {
@@ -419,18 +604,21 @@ func propC02(t *rapid.T) {
 			var err error
 			var est *wire.MsgTx
 			if kind == "auto" {
-				hexTx, fee, err = w.env.W.AutoCreateRawTransaction(amounts, lockTime, amountOf(userFee), fromAddr, changeAddr, payload)
+				hexTx, fee, err = c.createAuto(t, via, what, amounts, lockTime, userFee, fromAddr, changeAddr, payload)
 			} else {
 				est, fee, err = w.env.W.EstimateTxFee(amounts, lockTime, amountOf(userFee), fromAddr, changeAddr, payload)
 				if est != nil {
 					est.LockTime = lockTime
 				}
 			}
-			w.logf("%s -> err=%v fee=%v", what, err, fee)
+			w.logf("%s via-api=%v -> err=%v fee=%v", what, via, err, fee)
 			if fromAddr != "" && from == nil {
 				if err == nil {
 					t.Fatalf("%s: accepted a sender address that does not belong to the selected wallet", what)
 				}
+				continue
+			}
+			if bigFee(what, err) {
 				continue
 			}
 			fhi := relayMin(int64(blockchain.GetMaxStandardTxSize()))
@@ -468,12 +656,15 @@ func propC02(t *rapid.T) {
 			v := int64(consensus.MinStakingValue) * int64(rapid.IntRange(1, 50).Draw(t, "stakeMul"))
 			what := fmt.Sprintf("staking(value=%d period=%d userFee=%d from=%q)", v, period, userFee, fromAddr)
 			c.reqs = append(c.reqs, what)
-			hexTx, fee, err := w.env.W.CreateStakingTransaction(fromAddr, []*masswallet.StakingTxOut{{Address: stk.EncodeAddress(), FrozenPeriod: uint32(period), Amount: amountOf(v)}}, lockTime, amountOf(userFee))
-			w.logf("%s -> err=%v fee=%v", what, err, fee)
+			hexTx, fee, err := c.createStaking(t, via, what, fromAddr, stk.EncodeAddress(), uint32(period), v, lockTime, userFee)
+			w.logf("%s via-api=%v -> err=%v fee=%v", what, via, err, fee)
 			if fromAddr != "" && from == nil {
 				if err == nil {
 					t.Fatalf("%s: accepted a foreign sender address", what)
 				}
+				continue
+			}
+			if bigFee(what, err) {
 				continue
 			}
 			if err != nil {
@@ -507,12 +698,15 @@ func propC02(t *rapid.T) {
 			}
 			what := fmt.Sprintf("binding(value=%d target=%dB userFee=%d from=%q)", v, len(tb), userFee, fromAddr)
 			c.reqs = append(c.reqs, what)
-			hexTx, fee, err := w.env.W.CreateBindingTransaction(fromAddr, amountOf(userFee), []*masswallet.BindingOutput{{Holder: holder, BindingTarget: target, Amount: amountOf(v)}})
-			w.logf("%s -> err=%v fee=%v", what, err, fee)
+			hexTx, fee, err := c.createBinding(t, via, what, fromAddr, holder, target, v, userFee)
+			w.logf("%s via-api=%v -> err=%v fee=%v", what, via, err, fee)
 			if fromAddr != "" && from == nil {
 				if err == nil {
 					t.Fatalf("%s: accepted a foreign sender address", what)
 				}
+				continue
+			}
+			if bigFee(what, err) {
 				continue
 			}
 			if err != nil {
@@ -585,8 +779,8 @@ func propC02(t *rapid.T) {
 			}
 			what := fmt.Sprintf("manual(in=%d sum=%d outs=%d sum=%d subfee=%d bad=%s change=%q)", len(inputs), inSum, len(outs), outSum, len(sub), bad, changeAddr)
 			c.reqs = append(c.reqs, what)
-			hexTx, fee, err := w.env.W.CreateRawTransaction(inputs, amounts, lockTime, changeAddr, sub)
-			w.logf("%s -> err=%v fee=%v", what, err, fee)
+			hexTx, fee, err := c.createManual(t, via, what, inputs, amounts, lockTime, changeAddr, sub)
+			w.logf("%s via-api=%v -> err=%v fee=%v", what, via, err, fee)
 			if bad == "foreign" || bad == "unknown" {
 				if err == nil {
 					t.Fatalf("%s: accepted an input that is not the selected wallet's", what)
@@ -601,33 +795,7 @@ func propC02(t *rapid.T) {
 					// no transaction came back, so nothing is held by a draft: the named coins are as
 					// eligible as before. Ask for (almost) everything that is eligible.
 					c.labels["failed-manual-create"] = true
-					elig := c.eligible(t, nil)
-					k := blockchain.GetMaxStandardTxSize() / 154
-					if len(elig) > 0 && len(elig) <= k {
-						var sum int64
-						for _, co := range elig {
-							sum += co.Value
-						}
-						fhi := relayMin(int64(blockchain.GetMaxStandardTxSize())) + massutil.MinRelayTxFee().IntValue()
-						if sum > 2*fhi+100000 {
-							addr, _ := strangerAddr()
-							want := sum - fhi
-							hexProbe, _, perr := w.env.W.AutoCreateRawTransaction(map[string]massutil.Amount{addr: amountOf(want)}, 0, massutil.ZeroAmount(), "", "", nil)
-							if perr != nil {
-								t.Fatalf("after %s failed (%v), an automatic create for %d of the %d eligible (unspent, mature, unreserved) funds failed: %v - the failed request still holds its inputs\n  %s", what, err, want, sum, perr, w.journalTail(12))
-							}
-							raw, _ := hex.DecodeString(hexProbe)
-							var ptx wire.MsgTx
-							if ptx.SetBytes(raw, wire.Packet) == nil {
-								for _, in := range ptx.TxIn {
-									c.reserved[in.PreviousOutPoint] = true
-								}
-								c.drafts++
-							}
-							c.labels["probe-after-failed-manual"] = true
-							c.nontriv = true
-						}
-					}
+					c.probeAll(t, what, err, strangerAddr)
 				}
 				continue
 			}
